@@ -46,6 +46,10 @@ for _p, _q, _t in (("C01", 30000, 600000), ("C06", 30000, 600000), ("C13", 30000
     for _tier, _n in (("quick", _q), ("thorough", _t)):
         PLAN[_p][_tier] = PLAN[_p][_tier] + [{"binary": "worldsim8", "package": "worldsim8", "profile": _p, "runs": _n, "chunks_per_job": 2 if _p != "C11" else 4}]
 
+# Thorough tier of C05: the same seeds (histories capped at 25 operations) under the Miri interpreter.
+PLAN["C05"]["thorough"] = PLAN["C05"]["thorough"] + [{"binary": "miri:worldsim", "package": "worldsim", "profile": "C05", "runs": 192, "chunks_per_job": 1,
+                                                       "extra_args": ["--max-ops", "25"], "chunk_runs": 6}]
+
 SCHED_BINS = [f"schedsim-{i:02d}" for i in range(16)]
 
 
